@@ -149,6 +149,15 @@ class Run:
         for k in KEYS:
             v["current " + k] = self.contents(cl[k].Names)
         v["current tasker via Framer"] = self.contents(framing.Framer.Names)
+        for k in KEYS:                       # which registry object is current (identity, not contents)
+            d, owner = cl[k].Names, "class-level"
+            for hi in self.houses:
+                if k in ("store", "tasker", "log") and d is self.insts[hi].names[k]:
+                    owner = "house#%d" % hi
+            for fi in self.framers:
+                if k == "frame" and d is self.insts[fi].frameNames:
+                    owner = "framer#%d" % fi
+            v["owner of current " + k] = owner
         for hi in self.houses:
             h = self.insts[hi]
             for k in ("store", "tasker", "log"):
@@ -164,6 +173,9 @@ class Run:
         for k in KEYS:
             v["current " + k] = dict(m.ns[m.cur[k]])
         v["current tasker via Framer"] = dict(m.ns[m.cur["tasker"]])
+        for k in KEYS:
+            c = m.cur[k]
+            v["owner of current " + k] = "house#%d" % c[1] if c[0] == "H" else ("framer#%d" % c[1] if c[0] == "F" else "class-level")
         for hi in self.houses:
             for k in ("store", "tasker", "log"):
                 v["house#%d %s" % (hi, k)] = dict(m.ns[("H", hi, k)])
@@ -371,9 +383,9 @@ def base_ops(run, final=False):
     if len(run.houses) < MAX_HOUSES:
         for n in EXPL["House"]:
             ops.append(("new", "House", n, None, ()))
+    for hi in run.houses:
+        ops.append(("assign", hi))
     if not final:
-        for hi in run.houses:
-            ops.append(("assign", hi))
         for key in KEYS:
             ops.append(("clear", key))
         ops.append(("clearall",))
@@ -422,10 +434,41 @@ def expand_random(history, op, counters):
     return [op[:-1] + (ans,) for ans in found]
 
 
-def work(first):
+FOCUS_PRELOAD = [("new", "House", "h", None, ()), ("assign", 0), ("new", "Tasker", "x", None, ()), ("new", "Log", "x", None, ()),
+                 ("new", "Framer", "f", 0, ())]
+FOCUS_DEPTH = 3 if QUICK else 4
+
+
+def focused_ops(run, final=False):
+    """Second family: house#0 is current and owns a tasker x, a log x and a framer f.  Per-class Clear() / ClearRegistries(),
+    re-entering the same house (assignRegistries, Framer.clone), then explicit duplicates and automatic names."""
+    ops = []
+    for hi in run.houses:
+        ops.append(("assign", hi))
+    for key in ("store", "tasker", "log", "frame"):
+        ops.append(("clear", key))
+    ops.append(("clearall",))
+    for fi in run.framers[:1]:
+        if len(run.framers) < 3:
+            for n in ("c", "x"):
+                ops.append(("clone", fi, n))
+    for c in ("Tasker", "Log", "Store"):
+        for n in (None, "x"):
+            ops.append(("new", c, n, None, ()))
+    if len(run.framers) < 3:
+        for n in (None, "x"):
+            ops.append(("new", "Framer", n, run.houses[0], ()))
+    return ops
+
+
+def work(arg):
+    family, first = arg
     core.use_repo()
     p = core.Part()
-    h0 = [first]
+    if family == "gen":
+        h0, depth, opsfn = [first], MAX_DEPTH, base_ops
+    else:
+        h0, depth, opsfn = FOCUS_PRELOAD + [first], FOCUS_DEPTH - 1, focused_ops
 
     def build(history):
         p.evaluations += 1
@@ -435,7 +478,7 @@ def work(first):
         if run.diverged:
             return []
         out = []
-        for op in base_ops(run, final=(len(history) - 1 == MAX_DEPTH - 1)):
+        for op in opsfn(run, final=(len(history) - len(h0) == depth - 1)):
             out.extend(expand_random(history, op, p.notes))
         return out
 
@@ -454,7 +497,7 @@ def work(first):
         return False
 
     with core.watchdog(3000):
-        res = core.bfs(h0, enabled, build, lambda r: r.canon(), check=check, max_depth=MAX_DEPTH)
+        res = core.bfs(h0, enabled, build, lambda r: r.canon(), check=check, max_depth=depth)
     p.states = res["states"]
     p.transitions = res["transitions"]
     p.notes["depth_reached=%d" % res["max_depth"]] += 1
@@ -588,7 +631,14 @@ def run():
     import gc
     gc.collect()
     gc.freeze()          # keep forked workers from copying the parent's heap page by page
-    parts = core.pmap(work, firsts, procs=min(core.NPROC, 8) if QUICK else None)
+    pre = Run(FOCUS_PRELOAD)
+    if pre.diverged:
+        raise core.BrokenCheck("focused preload diverges: %r" % (pre.diverged,))
+    ffirsts = []
+    for op in focused_ops(pre):
+        ffirsts.extend(expand_random(FOCUS_PRELOAD, op, counters))
+    items = [("gen", f) for f in firsts] + [("focus", f) for f in ffirsts]
+    parts = core.pmap(work, items, procs=min(core.NPROC, 8) if QUICK else None)
     best = {}
     for si, p in enumerate(parts):
         for v in p.violations:
@@ -615,7 +665,7 @@ def run():
     ck.merge(pparts)
     for v in sorted(pv, key=lambda v: (len(v[3].get("program", "")) if isinstance(v[3], dict) else 0, v[1])):
         ck.part.violation(*v)
-    ck.coverage_extra = dict(all_outcomes=dict(sorted(ck.part.outcomes.items())), first_operations=len(firsts), max_depth_after_first=MAX_DEPTH, programs=len(grid),
+    ck.coverage_extra = dict(focused_family=dict(preload=hist_str(FOCUS_PRELOAD), operations_after_preload=FOCUS_DEPTH, shards=len(ffirsts)), all_outcomes=dict(sorted(ck.part.outcomes.items())), first_operations=len(firsts), max_depth_after_first=MAX_DEPTH, programs=len(grid),
                              explicit_names=EXPL, randint_draws_enumerated=RCAP, randint_answers=[0, 1])
     ck.assumptions = [
         "Clear() starts a fresh class-level namespace (it rebinds the class registry); a house's own registry is untouched and becomes current again on assignRegistries()",
@@ -628,8 +678,10 @@ def run():
     return ck.finish(
         rule="BFS from each of %d first operations, %d further operations, all operations in {create House/Store/Tasker/Framer/Logger/Log/Frame with each explicit name or automatic "
              "(x every randint answer sequence), Clear x5, ClearRegistries, assignRegistries per house, assignFrameRegistry and clone per framer}; at most %d houses and %d framers (+1 clone); "
-             "registries compared with the reference after every operation.  Plus %d generated programs built through Builder."
-             % (len(firsts), MAX_DEPTH, MAX_HOUSES, MAX_FRAMERS, len(grid)),
+             "registries (contents by instance identity and which registry object is current) compared with the reference after every operation.  "
+             "Second family: from 'house h current, owning tasker x, log x, framer f' every history of %d operations over {per-class Clear, ClearRegistries, "
+             "assignRegistries of the same house, Framer.clone, explicit-duplicate and automatic creations}.  Plus %d generated programs built through Builder."
+             % (len(firsts), MAX_DEPTH, MAX_HOUSES, MAX_FRAMERS, FOCUS_DEPTH, len(grid)),
         exhaustive=False,
         explanation="complete for histories of at most %d operations over the stated alphabet; not a fixpoint" % (MAX_DEPTH + 1))
 
